@@ -12,6 +12,7 @@ structure St where
   w : World
   inCase : Bool
   hashes : List Hash
+  d : Defects
 
 def lex2 (a b : Nat × Nat) : Bool := a.1 < b.1 || (a.1 = b.1 && a.2 < b.2)
 
@@ -94,7 +95,7 @@ def writeOp (s : St) (p : Nat) (op : WOp) : St × String :=
   if p ≥ s.w.peers.length then (s, "bad-op")
   else if !op.wellFormed s.w then (s, "bad-op")
   else
-    let (w', r) := s.w.write Defects.asImplemented p op
+    let (w', r) := s.w.write s.d p op
     match r with
     | some res => answer s w' res.str
     | none => answer s w' "queued"
@@ -107,7 +108,7 @@ def stepLine (s : St) (line : String) : St × String :=
     | some i, some n =>
       if n < 1 ∨ n > 4 then (s, "bad-op")
       else match parseRights rest n with
-        | some rights => ({ w := World.init rights, inCase := true, hashes := [] }, s!"case {i}")
+        | some rights => ({ s with w := World.init rights, inCase := true, hashes := [] }, s!"case {i}")
         | none => (s, "bad-op")
     | _, _ => (s, "bad-op")
   | kind :: rest =>
@@ -167,7 +168,7 @@ def stepLine (s : St) (line : String) : St × String :=
       | some p =>
         if p ≥ s.w.peers.length then (s, "bad-op")
         else
-          let (w1, queued) := s.w.compute Defects.asImplemented p
+          let (w1, queued) := s.w.compute s.d p
           answer s w1 (if queued then "queued" else "ok")
       | none => (s, "bad-op")
     | "pull" =>
@@ -176,7 +177,7 @@ def stepLine (s : St) (line : String) : St × String :=
         let n := s.w.peers.length
         if dst ≥ n ∨ src ≥ n ∨ dst = src ∨ ¬ (room = 1 ∨ room = 2) then (s, "bad-op")
         else
-          let (w1, f) := s.w.pull Defects.asImplemented dst src room
+          let (w1, f) := s.w.pull s.d dst src room
           answer s w1 s!"ok f={f}"
       | _, _, _ => (s, "bad-op")
     | "settle" =>
@@ -184,12 +185,34 @@ def stepLine (s : St) (line : String) : St × String :=
       | some room, some max =>
         if ¬ (room = 0 ∨ room = 1 ∨ room = 2) then (s, "bad-op")
         else
-          let (w1, n, quiet, f) := World.settle Defects.asImplemented room max s.w
+          let (w1, n, quiet, f) := World.settle s.d room max s.w
           answer s w1 s!"ok rounds={n} quiet={if quiet then 1 else 0} f={f}"
       | _, _ => (s, "bad-op")
     | _ => (s, "bad-op")
   | [] => (s, "bad-op")
 
+/-- experiments only: `DMODEL_OFF=switch,switch` runs the model with those switches of `Defects.asImplemented`
+    turned off (to validate a proposed fix in a private copy of /repo); the checks never set it -/
+def applyOff (d : Defects) (name : String) : Defects :=
+  match name with
+  | "historySeedDropped" => { d with historySeedDropped := false }
+  | "entityNotCompared" => { d with entityNotCompared := false }
+  | "emptyDayRow" => { d with emptyDayRow := false }
+  | "oldDayUnmarked" => { d with oldDayUnmarked := false }
+  | "refDeletionUnmarked" => { d with refDeletionUnmarked := false }
+  | "syncDeletionLocalDayUnmarked" => { d with syncDeletionLocalDayUnmarked := false }
+  | "ingestIgnoresTombstones" => { d with ingestIgnoresTombstones := false }
+  | "rightDependsOnLocalAuthor" => { d with rightDependsOnLocalAuthor := false }
+  | "edgesOnlyForFetchedRows" => { d with edgesOnlyForFetchedRows := false }
+  | "syncDeletionKeepsEdges" => { d with syncDeletionKeepsEdges := false }
+  | "deletionBatchKeyedById" => { d with deletionBatchKeyedById := false }
+  | "lazyScan" => { d with lazyScan := false }
+  | "syncDeletionRoomScoped" => { d with syncDeletionRoomScoped := false }
+  | "summaryFirstEntityOnly" => { d with summaryFirstEntityOnly := false }
+  | _ => d
+
 def main : IO Unit := do
+  let off := (← IO.getEnv "DMODEL_OFF").getD ""
+  let d := (off.splitOn ",").foldl applyOff Defects.asImplemented
   loop (← IO.getStdin) (← IO.getStdout) stepLine
-    { w := World.init [], inCase := false, hashes := [] }
+    { w := World.init [], inCase := false, hashes := [], d := d }
